@@ -7,6 +7,9 @@ require (
 	github.com/marekgalovic/anndb v0.0.0
 )
 
-require github.com/satori/go.uuid v1.2.0 // indirect
+require (
+	github.com/klauspost/cpuid v1.2.3 // indirect
+	github.com/satori/go.uuid v1.2.0
+)
 
 replace github.com/marekgalovic/anndb => /repo
